@@ -137,6 +137,7 @@ def run(ctx):
     inv = inverse_function_level(ctx, rep)
     runlevel.with_extra(ctx, "c01logdec", lambda: logdec_specs(ctx))
     runlevel.with_extra(ctx, "c01forcemesh", lambda: forced_poll_mesh_specs(ctx))
+    runlevel.with_extra(ctx, "c01toggle", lambda: option_toggle_specs(ctx))
     stats, samples = runlevel.pipe_replay(ctx, rep, "C01")
     fcov = runlevel.filter_events(ctx, rep, want_clauses=("in_box",))
     traces = runlevel.get_pool(ctx)
@@ -174,6 +175,20 @@ def _replay_inverse(ctx, rep, c):
     if any(not (l <= v <= u) for v, l, u in zip(x, c["lb"], c["ub"])):
         rep.violation("orig_box", "variables_transformer.py:inverse_transf", f"inverse_transf(u) lies outside the hard bounds: u={c['u']} -> x={[float(v) for v in x]}", c)
     return rep
+
+
+def option_toggle_specs(ctx):
+    """One boolean option switched away from its default each, the optimum beyond a face of the box (candidates keep pushing against the
+    bounds): whatever alternative code path an option enables must still keep every evaluated point inside the box."""
+    from .. import gen
+    rng = ctx.sub_rng("c01toggle")
+    specs = []
+    for j, (name, dflt) in enumerate(gen.boolean_options()):
+        sp = gen.make_spec(rng, D=2, geom=rng.choice(["box", "logbox", "tight"]), mode=["det", "det", "decl"][j % 3], cons=None, opt_loc=rng.choice(["outside", "on_bound"]),
+                           target="quad")
+        sp["options"] = {"n_search": 32, "max_fun_evals": 45 if sp["mode"] == "det" else 70, name: (not dflt), "noise_final_samples": 0}
+        specs.append(sp)
+    return specs
 
 
 def forced_poll_mesh_specs(ctx):
